@@ -1059,4 +1059,136 @@ Section HandlersD.
     apply Forall_forall. intros x Hx. rewrite Forall_forall in B. apply B. eapply In_firstn_incl; eauto.
   Qed.
 
+  Lemma hvs_wf_nil : hvs_wf n [].
+  Proof. intros r p H. inversion H. Qed.
+
+  Lemma restorable_not_commit st : restorable st -> st <> SCommit.
+  Proof. intro H. destruct H as [H|[H|[H|H]]]; subst; discriminate. Qed.
+
+  Lemma InvD_restart s : InvD s -> InvD (restart n own blocks delay s).
+  Proof.
+    intros HI. cbv beta delta [restart]. repeat dlet_step.
+    destruct (fold_left (apply_round_rec n own) _ _) as [[h rs] ok] eqn:F1.
+    destruct (fold_left (apply_lock_rec n blocks) _ _) as [[[h2 rs2] bp] last] eqn:F2.
+    destruct (fold_left (apply_commit_rec n) _ _) as [h3 rs3] eqn:F3.
+    repeat dlet_step.
+    assert (H0 : InvD s4).
+    { destruct (@fold_round_inv n own (w_synced s0) ([], (0, SNewHeight), true) hvs_wf_nil) as [W1 S1].
+      { unfold restorable; cbn; auto. }
+      rewrite F1 in W1, S1. cbn [fst snd] in W1, S1.
+      assert (LW : Forall lockrec_ok (w_synced s1)).
+      { subst s1. cbn. apply (d_lockwal HI). }
+      assert (A2 : lock_acc_ok n (h2, rs2, bp, last)).
+      { rewrite <- F2. apply fold_lock_inv; auto. apply lock_acc_ok_intro; auto; intros; discriminate. }
+      destruct A2 as [W2 [S2 [_ L2]]].
+      destruct (@fold_commit_inv n (w_synced s2) (h2, rs2) W2 S2) as [W3 S3].
+      rewrite F3 in W3, S3. cbn [fst snd] in W3, S3.
+      pose proof (fold_commit_mono n (w_synced s2) (h2, rs2)) as M3. rewrite F3 in M3. cbn [fst snd] in M3.
+      apply pos_le_fst in M3. cbn [fst pcode] in M3.
+      subst s4. destruct HI as [hh l k i c d lw]. constructor; cbn; auto.
+      - subst s3. destruct last as [[b lr]|]; cbn; [|intro H; contradiction].
+        intros _. specialize (L2 _ _ eq_refl). lia.
+      - intros; discriminate.
+      - intro Ec. exfalso. eapply restorable_not_commit; eauto.
+      - subst s1. unfold wal_all. cbn. rewrite app_nil_r. exact lw. }
+    clear HI E3.
+    destruct (negb ok); [apply InvD_panic; auto|].
+    destruct last as [[b lr]|].
+    - destruct (negb (decodable blocks b)); [apply InvD_panic; auto|].
+      destruct (snd rs3); auto; hd.
+    - destruct (snd rs3); auto; hd.
+  Qed.
+
+  Lemma InvD_event_body e s :
+    InvD s ->
+    InvD (match e with
+         | ECrash kr kl kc => match status_ s with Decided => s | _ => crash kr kl kc s end
+         | ERestart => match status_ s with Down => restart n own blocks delay s | _ => s end
+         | _ =>
+             match status_ s with
+             | Running =>
+                 match e with
+                 | EProposal curh r from pol b => recv_proposal n own blocks delay curh r from pol b s
+                 | EPart curh b idx => recv_part n own blocks delay curh b idx s
+                 | EVote curh v => recv_vote n own blocks delay curh v s
+                 | EVoteList l => fold_left (fun s cv => recv_vote n own blocks delay (fst cv) (snd cv) s) l s
+                 | ETimeout => timeout n own blocks delay s
+                 | EProposeCb rr ok b => propose_cb n own blocks delay rr ok b s
+                 | EImportCb rr ok => import_cb n own blocks delay rr ok s
+                 | ECommitCb rr ok => commit_cb blocks rr ok s
+                 | _ => s
+                 end
+             | _ => s
+             end
+         end).
+  Proof.
+    intro HI. destruct e; try (destruct (status_ s) eqn:R; auto).
+    - apply InvD_recv_proposal; auto.
+    - apply InvD_recv_part; auto.
+    - apply InvD_recv_vote; auto.
+    - clear R. revert s HI. induction l as [|cv l IH]; intros s HI; cbn; auto.
+      apply IH. apply InvD_recv_vote; auto.
+    - apply InvD_timeout; auto.
+    - apply InvD_propose_cb; auto.
+    - apply InvD_import_cb; auto.
+    - apply InvD_commit_cb; auto.
+    - apply InvD_crash; auto.
+    - apply InvD_crash; auto.
+    - apply InvD_restart; auto.
+  Qed.
+
+  Lemma InvD_step_ev e fz s : InvD s -> InvD (step_ev n own blocks delay e fz s).
+  Proof.
+    intros HI. cbv beta delta [step_ev].
+    set (s0 := set_outs [] fz s).
+    assert (H0 : InvD s0) by (subst s0; destruct HI; constructor; cbn; auto).
+    clearbody s0. cbv zeta.
+    match goal with |- InvD (if blown ?x then _ else _) => set (s1 := x) end.
+    assert (H1 : InvD s1) by (subst s1; apply InvD_event_body; auto).
+    clearbody s1. destruct (blown s1); auto. dpeel. auto.
+  Qed.
+
 End HandlersD.
+
+Section HistoriesD.
+  Variable n : nat.
+  Variable own : Z.
+  Variable blocks : list blk.
+
+  Lemma InvD_init : InvD n init.
+  Proof.
+    constructor; cbn; auto.
+    - intros r p H. inversion H.
+    - intro H; contradiction.
+    - intros; discriminate.
+    - discriminate.
+    - intros; discriminate.
+  Qed.
+
+  Lemma InvD_run_from l : forall s, InvD n s -> InvD n (fold_left (step_in n own blocks) l s).
+  Proof.
+    induction l as [|i l IH]; intros s H; cbn; auto. apply IH. apply InvD_step_ev; auto.
+  Qed.
+
+  Lemma InvD_run l : InvD n (run_evs n own blocks l).
+  Proof. apply InvD_run_from, InvD_init. Qed.
+
+  (* every decision in the ghost log is justified *)
+  Lemma decisions_justified evs : Forall (gev_ok n) (glog (run_evs n own blocks evs)).
+  Proof. apply (d_log (InvD_run evs)). Qed.
+
+  (* a block is finalized only after an enterCommit on +2/3 precommits of one round for it *)
+  Lemma finalize_needs_quorum evs b :
+    decided (run_evs n own blocks evs) = Some b ->
+    exists r ev, quorum_ev n r Precommit (Some b) ev.
+  Proof.
+    intro H. destruct (d_dec (InvD_run evs) H) as [r [ev G]].
+    exists r, ev. pose proof (decisions_justified evs) as F. rewrite Forall_forall in F. apply (F _ G).
+  Qed.
+
+  (* while locked, the lock round is not ahead of the current round *)
+  Lemma lock_round_le_round evs :
+    locked (run_evs n own blocks evs) <> None ->
+    locked_round (run_evs n own blocks evs) <= round (run_evs n own blocks evs).
+  Proof. apply (d_lk (InvD_run evs)). Qed.
+End HistoriesD.
